@@ -16,6 +16,7 @@ import (
 	"path/filepath"
 	"strings"
 	"sync"
+	"sync/atomic"
 
 	"github.com/a-h/templ/cmd/templ/fmtcmd"
 )
@@ -50,4 +51,42 @@ func FmtFile(src string) (out string, err error) {
 	var w bytes.Buffer
 	err = fmtcmd.Run(fmtLog, strings.NewReader(src), &w, fmtcmd.Arguments{StdinFilepath: filepath.Join(fmtDir, "x.templ")})
 	return w.String(), err
+}
+
+var fmtDirSeq atomic.Int64
+
+// Verdict is what two CLI runs over a directory holding one file did:
+// `templ fmt <dir>` and then `templ fmt -fail <dir>`.
+type Verdict struct {
+	Err1, Err2     error  // results of the two runs (Err2 != nil: "-fail" failed)
+	After1, After2 string // bytes of the file after each run
+}
+
+// FmtDirVerdict writes src to <FmtFileDir>/job<n>/x.templ, runs the command
+// the way the CLI does for a directory argument (fmtcmd.Run with Files),
+// then runs it again with FailIfChanged, and reads the file after each run.
+func FmtDirVerdict(src string) (v Verdict, err error) {
+	if fmtDir == "" {
+		return v, fmt.Errorf("FmtFileDir not called")
+	}
+	defer func() {
+		if r := recover(); r != nil {
+			err = fmt.Errorf("panic in templ fmt: %v", r)
+		}
+	}()
+	dir := filepath.Join(fmtDir, fmt.Sprintf("job%d", fmtDirSeq.Add(1)))
+	if err = os.MkdirAll(dir, 0o755); err != nil {
+		return v, err
+	}
+	defer os.RemoveAll(dir)
+	file := filepath.Join(dir, "x.templ")
+	if err = os.WriteFile(file, []byte(src), 0o644); err != nil {
+		return v, err
+	}
+	read := func() string { b, _ := os.ReadFile(file); return string(b) }
+	v.Err1 = fmtcmd.Run(fmtLog, strings.NewReader(""), io.Discard, fmtcmd.Arguments{Files: []string{dir}, WorkerCount: 1})
+	v.After1 = read()
+	v.Err2 = fmtcmd.Run(fmtLog, strings.NewReader(""), io.Discard, fmtcmd.Arguments{Files: []string{dir}, WorkerCount: 1, FailIfChanged: true})
+	v.After2 = read()
+	return v, nil
 }
